@@ -6,7 +6,9 @@
 //!
 //! usage: verif-harness client [--decode min|max]
 //!
-//! input line:  cap=<n> handles=<n> mt=<n|0> rmin=<ns> rmax=<ns> | <step> <step> ...
+//! input line:  cap=<n> handles=<n> mt=<n|0> rmin=<ns> rmax=<ns> [rtu=1] | <step> <step> ...
+//!   rtu=1: the ClientLoop runs with FrameWriter::rtu + the RTU response parser (frames carry no transaction id:
+//!   the <tx> of F / P steps is ignored, wire entries read w-:<id>)
 //!   S:<id>:<r|u>:<timeout_ns>:<f|c|x>   submit request <id> (r = read holding register, u = a request that
 //!                                       cannot be formatted); f = Channel future, c = CallbackSession, x = FfiChannel try_send
 //!   E:<f|x> D:<f|x> L:<min|max>:<f|x>   enable / disable / set decode level
@@ -52,6 +54,8 @@ struct Shared {
     writing: bool,
     /// index of the script step being executed
     step: usize,
+    /// RTU framing (no MBAP header, no transaction id, CRC)
+    rtu: bool,
     t0: Option<tokio::time::Instant>,
 }
 
@@ -108,8 +112,16 @@ impl AsyncRead for ConnWire {
 impl AsyncWrite for ConnWire {
     fn poll_write(self: Pin<&mut Self>, cx: &mut Context<'_>, b: &[u8]) -> Poll<std::io::Result<usize>> {
         let me = self.get_mut();
-        let tx = u16::from_be_bytes([b[0], b[1]]);
-        let id = if b.len() >= 10 { u16::from_be_bytes([b[8], b[9]]) } else { 0xFFFF };
+        let rtu = me.ctl.lock().unwrap().rtu;
+        // MBAP: tx(2) proto(2) len(2) unit fc addr(2) ..; RTU: unit fc addr(2) .. crc(2), no transaction id
+        let tx = if rtu { "-".to_string() } else { u16::from_be_bytes([b[0], b[1]]).to_string() };
+        let id = if rtu {
+            if b.len() >= 4 { u16::from_be_bytes([b[2], b[3]]) } else { 0xFFFF }
+        } else if b.len() >= 10 {
+            u16::from_be_bytes([b[8], b[9]])
+        } else {
+            0xFFFF
+        };
         if me.sleep.is_none() {
             let mut c = me.ctl.lock().unwrap();
             if c.fail_write {
@@ -234,12 +246,32 @@ fn level(name: &str) -> DecodeLevel {
     }
 }
 
-fn frame_bytes(tx: u16, kind: &str) -> Vec<u8> {
+fn crc16(data: &[u8]) -> u16 {
+    let mut crc: u16 = 0xFFFF;
+    for b in data {
+        crc ^= *b as u16;
+        for _ in 0..8 {
+            crc = if crc & 1 != 0 { (crc >> 1) ^ 0xA001 } else { crc >> 1 };
+        }
+    }
+    crc
+}
+
+fn frame_bytes(tx: u16, kind: &str, rtu: bool) -> Vec<u8> {
     let pdu: Vec<u8> = match kind {
         "g" => vec![0x03, 0x02, 0xAB, 0xCD],
         "e" => vec![0x83, 0x02],
         _ => vec![0x04, 0x02, 0x00, 0x00],
     };
+    if rtu {
+        // address, PDU, CRC low byte first; the transaction id of the script step has no representation
+        let mut v = vec![1u8];
+        v.extend_from_slice(&pdu);
+        let c = crc16(&v);
+        v.push((c & 0xFF) as u8);
+        v.push((c >> 8) as u8);
+        return v;
+    }
     let mut v = Vec::new();
     v.extend_from_slice(&tx.to_be_bytes());
     v.extend_from_slice(&[0, 0]);
@@ -270,7 +302,9 @@ async fn run_case(line: &str, initial: DecodeLevel) -> String {
 
     let ctl: Ctl = Arc::new(Mutex::new(Shared::default()));
     ctl.lock().unwrap().t0 = Some(tokio::time::Instant::now());
-    let (channel, sess) = ClientSession::new(Framing::Tcp, cap, initial, mt);
+    let rtu = kv.get("rtu").copied().unwrap_or(0) != 0;
+    ctl.lock().unwrap().rtu = rtu;
+    let (channel, sess) = ClientSession::new(if rtu { Framing::RtuResponse } else { Framing::Tcp }, cap, initial, mt);
     let mut handles: Vec<Channel> = Vec::new();
     for _ in 1..nhandles {
         handles.push(channel.clone());
@@ -411,12 +445,12 @@ async fn run_case(line: &str, initial: DecodeLevel) -> String {
                         "B" => w.push(&crate::util::unhex(p[1])),
                         "F" => {
                             if tail.is_none() {
-                                w.push(&frame_bytes(p[1].parse().unwrap(), p[2]))
+                                w.push(&frame_bytes(p[1].parse().unwrap(), p[2], rtu))
                             }
                         }
                         "P" => {
                             if tail.is_none() {
-                                let mut b = frame_bytes(p[1].parse().unwrap(), p[2]);
+                                let mut b = frame_bytes(p[1].parse().unwrap(), p[2], rtu);
                                 let rest = b.split_off(b.len() - 2);
                                 w.push(&b);
                                 tail = Some(rest);
@@ -429,7 +463,11 @@ async fn run_case(line: &str, initial: DecodeLevel) -> String {
                         }
                         "G" => {
                             if tail.is_none() {
-                                w.push(&[0x00, 0x00, 0x00, 0x05, 0x00, 0x03, 0x01, 0x83, 0x02])
+                                if rtu {
+                                    w.push(&[0x01, 0x55]) // unknown function code
+                                } else {
+                                    w.push(&[0x00, 0x00, 0x00, 0x05, 0x00, 0x03, 0x01, 0x83, 0x02])
+                                }
                             }
                         }
                         "Z" => w.set_eof(),
